@@ -9,6 +9,7 @@
 -/
 import Yld.Model.Api
 import Yld.Proofs.Program
+import Yld.Proofs.PyCorrect
 namespace Yld.C06
 
 /-- `(A;B)`: A's answers, then B's. -/
@@ -84,5 +85,30 @@ theorem control_constructs_compiled_correctly (q : Q) (hq : Parametric q) (env :
     (k : K) (hk : External k) (w : World) :
     execList q env (comp b [] n).1 k w = solve q env 0 b k w :=
   compile_body_correct q hq env b hb n k hk w
+
+/-- **The flag protocol.** For every well-formed piece of IR (every nesting of breakable blocks and
+    loops, labels distinct along each nesting path), the statements printed for it — `cutIf<n> =
+    False` … `cutIf<n> = True; doBreak = True; break` … `if cutIf<n>: doBreak = False` … `if
+    doBreak: break` — run under the Python semantics as the IR's structured exits: a `brk l` is a
+    `break` that travels with exactly `doBreak` and `cutIf<l>` raised, stops at block `l` and nowhere
+    else, and leaves all flags of enclosing blocks down. -/
+theorem flag_protocol_implements_structured_exits (q : Q) (u : Term → Term → Gen) (hq : ∀ n a, FrameLocal (q n a))
+    (cs : List Code) (Γ : List Nat) (lvl : Nat) (k : K) (σ : PyLoc) (w : World)
+    (hwf : WFL Γ cs) (hk : External k) (hσ : Inv Γ σ.2) :
+    SimB Γ σ.1 (pyStmts q u (stmtsOfCode lvl cs) k σ w) (execList q σ.1 cs k w) :=
+  (py_code_correct q u hq).2 cs Γ lvl k σ w hwf hk hσ
+
+/-- The compiler's output is well-formed in that sense. -/
+theorem compiled_code_is_well_formed (b : Body) (hb : BOK [] b) (n : Nat) : WFL [] (comp b [] n).1 :=
+  (comp_wf b [] n [] (by simp) hb (by simp)).1
+
+/-- Theorems A and B together: the printed Python of any source body has the reference semantics. -/
+theorem control_constructs_in_printed_python (q : Q) (u : Term → Term → Gen) (hq : ∀ n a, FrameLocal (q n a))
+    (hp : Parametric q) (b : Body) (hb : BOK [] b) (n : Nat) (k : K) (hk : External k) (σ : PyLoc) (hσ : Inv [] σ.2) (w : World) :
+    SimB [] σ.1 (pyStmts q u (stmtsOfCode 0 (comp b [] n).1) k σ w) (solve q σ.1 0 b k w) :=
+  py_body_correct q u hq hp b hb n k hk σ hσ w
+
+/-- Non-vacuity: a state that meets the invariant (flags as the function prologue leaves them). -/
+example : Inv [] (PyFlags.set [] "doBreak" false) := ⟨by simp, fun l hl => by cases hl⟩
 
 end Yld.C06
